@@ -112,7 +112,13 @@ class Abs26Relocation(Relocation):
 
     def calc(self, sym_value, reloc_value):
         assert sym_value % 4 == 0
-        return sym_value >> 2
+        # J and JAL take the upper four address bits from the delay slot:
+        if (sym_value >> 28) != ((reloc_value + 4) >> 28):
+            raise ValueError(
+                f"jump target 0x{sym_value:x} is outside the 256 MiB"
+                f" region of the jump at 0x{reloc_value:x}"
+            )
+        return (sym_value >> 2) & 0x3FFFFFF
 
 
 # Memory instructions:
